@@ -80,9 +80,10 @@ def main():
         if ok:
             dst = os.path.join(VERIF, "seeded", seed_id)
             os.makedirs(dst, exist_ok=True)
-            shutil.copy(patch, os.path.join(dst, "patch.diff"))
-            shutil.copy(demo, os.path.join(dst, "demo.py"))
-            meta2 = dict(meta)
+            if os.path.abspath(patch) != os.path.abspath(os.path.join(dst, "patch.diff")):
+                shutil.copy(patch, os.path.join(dst, "patch.diff"))
+                shutil.copy(demo, os.path.join(dst, "demo.py"))
+            meta2 = {k: v for k, v in meta.items() if k not in ("detected_by", "ran", "confirmed", "breaks_property")}
             meta2["breaks_property"] = meta["property"]
             meta2["confirmed"] = {"demo_passes_unchanged": True, "demo_fails_with_patch": True,
                                   "tests_with_patch": new_sum, "new_test_failures": []}
